@@ -202,6 +202,14 @@ class Interp:
             e = envs[0]
             for o in envs[1:]:
                 e = self.join_env(e, o)
+            if len(envs) == 2:
+                # a name bound in BOTH arms, to degrees in one and to radians in the other, is a contradiction for any unit-specific consumer after the
+                # branch (unlike `if flag: x = np.deg2rad(x)`, where one arm keeps the previous binding: that is flag-dependent and stays "unknown")
+                for k_, a_ in envs[0].items():
+                    b_ = envs[1].get(k_)
+                    if (b_ is not None and isinstance(a_, AV) and isinstance(b_, AV) and a_.unit and b_.unit and a_.unit != b_.unit
+                            and a_ is not before.get(k_) and b_ is not before.get(k_)):
+                        e[k_] = e[k_].with_(unit="deg|rad")
             fr.env = e
         # a branch that terminated leaves its negated condition as a fact
         if cv is None:
